@@ -8,5 +8,8 @@ CONSTANTS
   DevTruncAll = FALSE
   DevSwallowBreak = TRUE
   DevSplitLast = FALSE
+  DevSortBreakStops = FALSE
+  DevSortEmptyNoComplete = FALSE
+  DevSpaceCountsKeyless = FALSE
 CHECK_DEADLOCK FALSE
 PROPERTY Terminates
